@@ -607,6 +607,9 @@ def run(ctx):
     if not ctx.replay:
         from props import c13drafty
         c13drafty.run(ctx, stats, have_model=have_coq)
+        # push receipts through the code shared by the fcm / tnpg adapters + model PushPreviewC13.v
+        from props import c13push
+        c13push.run(ctx, stats, have_model=have_coq)
     if have_coq and not ctx.replay:
         from props import c13model
         c13model.correspondence(ctx, stats)
@@ -623,10 +626,11 @@ def run(ctx):
         "split": {
             "proof_half": "obligations/discharged below count the theorems of coq/Props/PropC13.v (modelled panic sites, reply totality, id echo, error-not-silence at session/hub routing level); model tied to the code by the extracted-model correspondence run (model_correspondence)",
             "proof_half_drafty": "theorems c13_drafty_* over coq/Pure/Drafty.v (toTree / forEach / PlainText / Preview never panic, for every decoded document); tied to the code by running the extracted model and drafty.PlainText / drafty.Preview on the same generated documents (drafty_fuzz: outcome class, plain text, preview compared; law drafty-panic on the implementation's answers)",
+            "proof_half_push_preview": "theorems c13_push_preview_* over coq/Pure/PushPreviewC13.v (payloadToData's trimming of the plain-text preview to 128 runes never slices beyond the rune length, for every text; the byte-length-only variant refuted, its trigger characterised exactly); tied to the code by harness/ext/c13push.go (fcm.PrepareV1Notifications(rcpt, nil) = the tnpg adapter's call, under recover, above a fake store.Devices) and the extracted model on the units of the same plain texts (push_payload: exact bytes of data[content] compared; law no-panic-push-payload on the implementation's outcomes)",
             "proof_half_slot_and_held_load": "theorems c13_inflight_* / c13_evict_without_init_test_* over coq/Sys/Inflight.v (every Add / Done site of Session.inflightReqs incl. the slow-consumer drop of broadcastToSessions, as an interleaving model) and c13_held_load_* over coq/Sys/HeldLoad.v (requests queued for a topic that is being loaded; who is answered with which id when the load ends); tied to the code by the structured driver TestVerifC13x (slow_consumers_and_held_load below: state after every operation / frames per session compared with the extracted models; laws inflight-slot-not-free, id-echo-held-load, unanswered-held-*, answered-twice-held-* on the implementation's trace)",
             "testing_half": "evaluations/input_distribution below are the malformed-stream fuzz (TestVerifFuzz, now with slow consumers: connections whose send queue is full): TESTING IN SUPPORT, no proof about Go code outside the models",
         },
-        "evaluations": stats["evaluations"] + stats.get("drafty", {}).get("evaluations", 0),
+        "evaluations": stats["evaluations"] + stats.get("drafty", {}).get("evaluations", 0) + stats.get("push", {}).get("evaluations", 0),
         "distinct_nontrivial": len(stats["nontrivial"]),
         "rule": "per configuration of (media handler, calls, validators) in {0,1}^3: corpus of confirmed triggers, then seeded groups of %s inputs (profiles mixed/structured/raw) over sessions in states nohi/hi/in/att/peer/root of a population rebuilt per group through the real {sub}/{pub} paths; structured = all ten kinds with every field drawn from boundary pools (tools/props/c13gen.py); raw = random bytes, truncated/mutated JSON, wrong types, nesting up to 100000, huge/ill-formed numbers, invalid UTF-8, duplicate/upper-case keys, multi-kind messages; plus protobuf ClientMsg through pbCliDeserialize and API keys through checkAPIKey; non-trivial = accepted (2xx or meta/data answer)" % ("54+18" if ctx.tier == "quick" else "80+18"),
         "traces_validated_against_impl": stats["evaluations"],
@@ -635,6 +639,7 @@ def run(ctx):
         "server_crashes": stats["crashes"][:20], "configs_aborted_after_restart_cap": stats["aborted_configs"],
         "inputs_skipped_because_their_shape_already_crashed": stats["skipped_after_crash"],
         "drafty_fuzz": stats.get("drafty"),
+        "push_payload": stats.get("push"),
         "slow_consumers_and_held_load": stats.get("c13x"),
         "session_store_and_stop_notice": stats.get("c13evict"),
         "model_correspondence": stats.get("model"),
@@ -648,13 +653,15 @@ def run(ctx):
             "c13_held_load_join_id_statement (clientMsg drain of topicInit answering with join.Id): REFUTED by a vm_compute witness; the code as it is answers with msg.Id, c13_held_load_id_echo holds",
             "c13_held_load_answered_statement (code as it is): REFUTED by the model and on the implementation (known findings unanswered-sub-p2p-deleted-while-loading, unanswered-deltopic-owner-while-loading; topicinit-stuck-p2p-deleted-while-loading is outside the models); c13_held_load_answered_partial proved",
             "Inflight.v has no topic unload / deletion / re-creation (C14's model); HeldLoad.v models ONE load; reply codes below the routing level are an oracle",
-            "panic-freedom of Go code outside the models (JSON decoding, in-topic handlers below the modelled sites, store mappers, auth handlers, push adapters): not provable here, fuzz only",
+            "c13_push_preview_bytes_only_statement (payloadToData without the rune-length test): REFUTED by a vm_compute witness (65 Cyrillic letters); the code as it is has the test, the full theorem c13_push_preview_no_panic holds; c13_push_preview_bytes_only_partial gives the exact trigger",
+            "panic-freedom of Go code outside the models (JSON decoding, in-topic handlers below the modelled sites, store mappers, auth handlers, the push adapters apart from the preview trimming): not provable here, fuzz only",
         ],
         "trusted_base": [
             "harness/overlay/server/zz_verif_c13_test.go (population, recover wrapper = stand-in for the recover-less read loops, quiescence detector of zz_verif_topic_test.go, stub media handler / validator), memverif adapter",
             "tools/props/c13.py monitors (python restatement of the property on the implementation's answers), c13gen.py / c13slow.py generators",
             "harness/overlay/server/zz_verif_c13x_test.go (clog = the session's drain loop stopped and its send buffer filled to capacity; held load = memverif call hook zz_hook.go parking the first adapter call made after the {sub}; hub-level quiescence while the load is held), harness/runner/r_c13x.ml (mapping of driver operations to model labels; presence broadcasts' choice of stuck connections taken from the implementation), tools/props/c13x.py (laws, comparison)",
             "harness/ext/c13.go (drafty.PlainText / Preview each under recover; its re-implementation of decodeAsDrafty / decodeAsStyle / decodeAsEntity and the uniseg segmentation hand the model the decoded document), harness/runner/r_c13d.ml, tools/props/c13drafty.py (comparison, TrimSpace applied to the model's text)",
+            "harness/ext/c13push.go (receipt construction, fake store.Devices, its UTF-8 unit decoder = utf8.DecodeRuneInString, recover), harness/runner/r_c13p.ml, tools/props/c13push.py (generator, UTF-8 encoding of the model's runes, comparison)",
             "NOT proved: panic-freedom of Go code outside the two models (encoding/json, drafty's decoder and copyLight, topic handlers below the modelled sites, store mappers, auth handlers): covered only by the fuzz runs above",
         ],
     })
